@@ -147,8 +147,11 @@ def run_shard(mode, n, firsts, sub_seed):
                     # configuration variety for the random sequences
                     rmtree(scratch)
                     os.makedirs(scratch, exist_ok=True)
+                    from ..seqengine import path_spelling
+                    sd = path_spelling(scratch, rng.randrange(4))
+                    res.count("stores_reached_through_a_non_canonical_path", 1 if sd != "store" else 0)
                     pool = WorldPool(scratch, contents, DOCS, depth=rng.choice([1, 2, 5]), width=rng.choice([1, 3, 4]),
-                                     algo=rng.choice(STORE_ALGOS))
+                                     algo=rng.choice(STORE_ALGOS), store_dir=sd)
                 ops = []
                 pids = PIDS + ["r"]
                 fmts = [None, "f1", "http://ns/x"]
